@@ -28,7 +28,10 @@ def run_verus(path, rlimit, seed, extra=()):
         cmd += ["--smt-option", "smt.random_seed=%d" % (seed % 1000000), "--smt-option", "sat.random_seed=%d" % (seed % 1000000)]
     cmd += list(extra)
     t0 = time.time()
-    p = sh(cmd, cwd=os.path.dirname(path))
+    try:
+        p = subprocess.run(cmd, capture_output=True, text=True, cwd=os.path.dirname(path), timeout=float(os.environ.get("VERIF_VERUS_TIMEOUT", "900")))
+    except subprocess.TimeoutExpired:
+        return {"cmd": " ".join(cmd), "exit": -9, "json": None, "diags": [], "stderr": "verus timed out (wall-clock guard)", "wall": time.time() - t0}
     wall = time.time() - t0
     try:
         js = json.loads(p.stdout)
@@ -227,11 +230,27 @@ def classify(res, r, lines, unit, seed, path):
             clause = "%s::%s::%s::%s" % (unit.name, fn.fq, re.sub(r"\s+", "-", msg)[:60], re.sub(r"\s+", " ", prim_text)[:120])
         elif "precondition" in msg or "assertion" in msg:
             pass
-        res.failures.append({"obligation": clause, "fn": fn.fq, "props": fn.props, "msg": msg, "rendered": rendered, "hint": hint, "orig": "%s:%d" % (fn.opts["file"], fn.vx["orig_start_line"]), "unit": unit.name})
+        oprops = fn.props
+        for o in fn.obligations:
+            if o["id"] == clause:
+                oprops = o["props"]
+        res.failures.append({"obligation": clause, "fn": fn.fq, "props": oprops, "msg": msg, "rendered": rendered, "hint": hint, "orig": "%s:%d" % (fn.opts["file"], fn.vx["orig_start_line"]), "unit": unit.name})
 
 
-def load_units():
-    return [Unit(p) for p in sorted(glob.glob(os.path.join(VERIF, "units", "*.rs")))]
+def load_units(prop=None):
+    """units listed in units/REGISTRY (finished units only); parsed only if they serve `prop`"""
+    names = [l.split("#")[0].strip() for l in open(os.path.join(VERIF, "units", "REGISTRY"))]
+    out = []
+    for n in names:
+        if not n:
+            continue
+        p = os.path.join(VERIF, "units", n + ".rs")
+        if prop is not None:
+            m = re.search(r"//@unit[^\n]*props=(\S+)", open(p).read())
+            if not m or prop not in m.group(1).split(","):
+                continue
+        out.append(Unit(p))
+    return out
 
 
 def load_known():
@@ -241,7 +260,7 @@ def load_known():
         for ln in open(p):
             ln = ln.strip()
             if ln.startswith("known:"):
-                m = re.match(r"known:\s*property=(\S+)\s+match=(\S+)\s*::\s*(.*)$", ln)
+                m = re.match(r"known:\s*property=(\S+)\s+match=\"([^\"]+)\"\s*::\s*(.*)$", ln) or re.match(r"known:\s*property=(\S+)\s+match=(\S+)\s*::\s*(.*)$", ln)
                 if m:
                     known.append({"property": m.group(1), "match": m.group(2), "text": m.group(3)})
             elif ln.startswith("fixed:"):
@@ -251,7 +270,7 @@ def load_known():
 
 def verus_check(prop, tier, seed, extra_handlers=None):
     """returns dict with everything needed for the verdict + evidence"""
-    units = [u for u in load_units() if prop in u.props and (tier == "thorough" or u.tier == "quick")]
+    units = [u for u in load_units(prop) if prop in u.props and (tier == "thorough" or u.tier == "quick")]
     results = []
     with cf.ThreadPoolExecutor(6) as ex:
         futs = [ex.submit(process_unit, u, seed) for u in units]
